@@ -46,6 +46,10 @@ static void truncation(const uint8_t* img, size_t len, const char* fdesc) {
                 if (!memchr(err.message, 0, sizeof err.message)) mc_fail("truncated.error-message-not-terminated", "%s cut=%zu", fdesc, cut);
                 if (complete) mc_count("complete-prefix-rejected (allowed)", 1);
             }
+            /* the error argument is optional ("may be NULL"): the same open without it gives the same verdict */
+            carquet_reader_t* rn = mode == 0 ? carquet_reader_open_buffer(x, cut, &o, NULL) : carquet_reader_open(g_path, &o, NULL);
+            if ((rn != NULL) != (rd != NULL)) { char key[96]; snprintf(key, sizeof key, "truncated.verdict-depends-on-error-argument.%s", MN[mode]); mc_fail(key, "%s cut=%zu: open %s with an error struct and %s without", fdesc, cut, rd ? "succeeds" : "fails", rn ? "succeeds" : "fails"); }
+            if (rn) carquet_reader_close(rn);
         }
         free(x);
     }
